@@ -429,6 +429,27 @@ def graph_paths(records, keyf=None):
     return root, tree, edges
 
 
+def join_obs(res, every=1):
+    """edges and per-state observations are dumped separately (see
+    MC_Registry.Emit); attach each edge's successor observation."""
+    obs = {}
+    edges = []
+    for r in res.lines:
+        if r.get('kind') == 'obs':
+            obs[json.dumps(r['key'], sort_keys=True)] = r['obs']
+        else:
+            edges.append(r)
+    for i, e in enumerate(edges):
+        k = json.dumps(e['to'], sort_keys=True)
+        if k not in obs:
+            # successor beyond the depth bound: never expanded, not probed
+            e['obs'] = None
+        else:
+            e['obs'] = obs[k]
+    res.lines = edges
+    res.n_obs = len(obs)
+
+
 def split_behaviours(records):
     """-simulate dumps: lvl restarts at its minimum at each new behaviour."""
     out = []
